@@ -285,14 +285,19 @@ MonoPair(f, n1, n2) ==
 MonotoneInLatest ==
   Ready => \A d \in Dims : LET f == After(d)
                            IN \A n1, n2 \in NisVals : n1 < n2 => MonoPair(f, n1, n2)
-\* the same over neighbouring values only (implies the above by transitivity), for one
-\* pseudo-randomly chosen dimension per state: the cheap form used with -simulate
+\* one pseudo-randomly drawn dimension and pair of neighbouring values per state: the
+\* cheap form used with -simulate (neighbouring pairs imply all pairs by transitivity)
 MonotoneInLatestSampled ==
-  Ready => \A d \in {Draw(Dims)} :
-             LET f == After(d)
-             IN \A n1 \in NisVals :
-                  LET up == {x \in NisVals : x > n1}
-                  IN up # {} => MonoPair(f, n1, CHOOSE x \in up : \A y \in up : x <= y)
+  Ready => LET d  == Draw(Dims)
+               n1 == Draw(NisVals)
+               up == {x \in NisVals : x > n1}
+           IN up # {} =>
+                LET n2 == CHOOSE x \in up : \A y \in up : x <= y
+                    r1 == Call(cfg, Mem, n1, d)
+                    r2 == Call(cfg, Mem, n2, d)
+                IN /\ r1.dof = r2.dof
+                   /\ BRatLe(r1.metric, r2.metric)
+                   /\ \A a \in cfg.alphas : Reaches(a, r1.metric, r1.dof) => Reaches(a, r2.metric, r2.dof)
 \* neighbouring values, every dimension (merged-state configurations)
 MonotoneInLatestAdj ==
   Ready => \A d \in Dims :
